@@ -262,3 +262,63 @@ def r4(rr, repo):
         else:
             rr.ob('raw decode rebuilds the array as uint8 with exactly the declared geometry: (height, width) for GRAY, (height, width, 3) otherwise, no inferred axis, no later reshaping',
                   verdict, mmod, c, witness=why[:200], key='raw-geometry')
+
+
+@rule('C09.R5', 'a JPEG decodes to the channel count the frame declares: Frame.decode forces 1 channel for GRAY and 3 channels for every other format (IMREAD_GRAYSCALE / IMREAD_COLOR), never a flag '
+                'that lets the file decide (ANYCOLOR / UNCHANGED), raises on an undecodable blob, and every decode of a frame goes through it')
+def r5(rr, repo):
+    fmod, dec = repo.find(f'{FR}::Frame.decode')
+    calls = [c for c in q.calls_in(dec) if U(c.func) == 'cv2.imdecode']
+    rr.floor('cv2.imdecode calls in Frame.decode', len(calls), 1, fmod, dec)
+    fparam = q.func_params(dec)[1] if len(q.func_params(dec)) > 1 else 'format'
+    FORCED = {'cv2.IMREAD_COLOR': 3, '1': 3, 'cv2.IMREAD_GRAYSCALE': 1, '0': 1}
+    FILE_DECIDES = ('ANYCOLOR', 'UNCHANGED', 'ANYDEPTH', '-1', 'REDUCED', 'IGNORE_ORIENTATION')
+    for c in calls:
+        flag = c.args[1] if len(c.args) > 1 else q.kwarg(c, 'flags')
+        if flag is None:
+            rr.violated('Frame.decode: imdecode is called without a flag (the default decodes to 3 channels also for GRAY frames)', fmod, c, key='decode-flag')
+            continue
+        # leaves of the conditional with the condition under which they are chosen
+        def leaves(n, conds):
+            if isinstance(n, ast.IfExp):
+                yield from leaves(n.body, conds + [(n.test, True)])
+                yield from leaves(n.orelse, conds + [(n.test, False)])
+            else:
+                yield n, conds
+        verdict, why = True, []
+        seen = set()
+        for leaf, conds in leaves(flag, []):
+            t = U(leaf)
+            if any(x in t for x in FILE_DECIDES):
+                verdict, why = False, why + [f'{t}: the file, not the declared format, decides the channel count']
+                continue
+            if t not in FORCED:
+                verdict = None if verdict is not False else verdict
+                why.append(f'unrecognised flag {t}')
+                continue
+            # which format does this leaf serve?
+            gray = None
+            for test, pol in conds:
+                if isinstance(test, ast.Compare) and len(test.ops) == 1 and isinstance(test.ops[0], (ast.Eq, ast.NotEq)) and {U(test.left), U(test.comparators[0])} == {fparam, "'GRAY'"}:
+                    gray = (isinstance(test.ops[0], ast.Eq)) == pol
+            if gray is None:
+                verdict = None if verdict is not False else verdict
+                why.append(f'{t} is not selected by a test of the declared format against GRAY')
+                continue
+            seen.add(gray)
+            if FORCED[t] != (1 if gray else 3):
+                verdict = False
+                why.append(f'{"GRAY" if gray else "colour"} frames are decoded with {t} ({FORCED[t]} channel(s))')
+        if verdict is True and seen != {True, False}:
+            verdict, why = None, why + ['one flag for both GRAY and colour frames']
+        if verdict is None:
+            rr.unresolved('Frame.decode: cannot read the imdecode flag as a GRAY / colour table', fmod, c, witness='; '.join(why)[:200], key='decode-flag')
+        else:
+            rr.ob('Frame.decode forces the channel count from the declared format: IMREAD_GRAYSCALE for GRAY, IMREAD_COLOR otherwise', verdict, fmod, c, witness='; '.join(why)[:200] or U(flag), key='decode-flag')
+    rs = [n for n in ast.walk(dec) if isinstance(n, ast.Raise)]
+    nonecheck = any(isinstance(n, ast.Compare) and isinstance(n.ops[0], ast.Is) and isinstance(n.comparators[0], ast.Constant) and n.comparators[0].value is None for n in ast.walk(dec))
+    rr.ob('an undecodable blob raises instead of producing a frame without pixels', bool(rs) and nonecheck, fmod, dec, key='decode-raises')
+    # every other imdecode in the frame module would bypass the table
+    cmod, cls = repo.find(f'{FR}::Frame')
+    other = [c for c in q.calls_in(cls, into_functions=True) if U(c.func) == 'cv2.imdecode' and enclosing_function(c) is not dec]
+    rr.ob('no other place in Frame decodes an image', not other, fmod, other[0] if other else cls, key='decode-single-site')
